@@ -19,7 +19,12 @@ func funcComputedCompute(ctx *Context, this *VMValue, params []*VMValue) *VMValu
 }
 
 func funcArrayKeepLow(ctx *Context, this *VMValue, params []*VMValue) *VMValue {
-	isAllInt, ret := this.ArrayFuncKeepLow(ctx, params[0].MustReadInt())
+	pickNum, ok := params[0].ReadInt()
+	if !ok {
+		ctx.Error = errors.New("(arr.kl)类型错误: 参数必须为int")
+		return nil
+	}
+	isAllInt, ret := this.ArrayFuncKeepLow(ctx, pickNum)
 	if isAllInt {
 		return NewIntVal(IntType(ret))
 	} else {
@@ -28,7 +33,12 @@ func funcArrayKeepLow(ctx *Context, this *VMValue, params []*VMValue) *VMValue {
 }
 
 func funcArrayKeepHigh(ctx *Context, this *VMValue, params []*VMValue) *VMValue {
-	isAllInt, ret := this.ArrayFuncKeepHigh(ctx, params[0].MustReadInt())
+	pickNum, ok := params[0].ReadInt()
+	if !ok {
+		ctx.Error = errors.New("(arr.kh)类型错误: 参数必须为int")
+		return nil
+	}
+	isAllInt, ret := this.ArrayFuncKeepHigh(ctx, pickNum)
 	if isAllInt {
 		return NewIntVal(IntType(ret))
 	} else {
